@@ -134,4 +134,9 @@ theorem C07_inv_payload_roundtrip (env : TEnv K) (printDid : Did.DID → Bytes) 
       key, asciiBytes, h.iss, h.sub, h.cmd, hargs, mapM_linkBytes, hn0, hn1, hm, haud, hexp, hiat, Option.orElse, Except.map] <;>
     (try exact List.isEmpty_iff.1 hm)
 
+/-- the tables and constants this property's theorems are stated over were READ OFF the current source on this run (a fact
+that can no longer be read is replaced by its expected value so that the model keeps compiling; it is then listed in
+`Facts.notExtracted` and this theorem fails) -/
+theorem C07_facts_extracted : ∀ n ∈ ["dlgSchema", "invSchema", "dlgNonceMin", "invNonceMin", "maxInt53", "minInt53"], n ∈ Ucan.Facts.extracted := by decide
+
 end Ucan.Token
